@@ -115,6 +115,64 @@ def _interval_new(ctx) -> None:
                            m.loc(inner))
 
 
+def _is_after_tabulate(ctx, m) -> bool | None:
+    """ORDER.tabulated: the ordering helper of interval.py run by the checker's interpreter on standard-library values: aware datetimes
+    sharing one tzinfo object on both sides of and inside a repeated hour (both folds), aware datetimes of different tzinfo objects,
+    naive datetimes, dates.  Expected: the order of the instants where both operands are aware, the native order otherwise."""
+    import datetime as _dt
+    from ..rules import minieval
+
+    class _Z(_dt.tzinfo):           # the clocks go back from 02:00 (+02:00) to 01:00 (+01:00) on 2021-10-31
+        def utcoffset(self, x):
+            w = x.replace(tzinfo=None, fold=0)
+            lo, hi = _dt.datetime(2021, 10, 31, 1), _dt.datetime(2021, 10, 31, 2)
+            return _dt.timedelta(hours=2 if w < lo or (w < hi and x.fold == 0) else 1)
+
+        def dst(self, x):
+            return _dt.timedelta(0)
+
+        def fromutc(self, x):
+            u = x.replace(tzinfo=None)
+            if u < _dt.datetime(2021, 10, 30, 23):
+                return (u + _dt.timedelta(hours=2)).replace(tzinfo=self)
+            w = u + _dt.timedelta(hours=1)
+            return w.replace(tzinfo=self, fold=1 if w < _dt.datetime(2021, 10, 31, 2) else 0)
+    z, z2 = _Z(), _Z()
+    D = _dt.datetime
+    same = [D(2021, 10, 31, 0, 59, 59, 999999, tzinfo=z), D(2021, 10, 31, 1, 15, tzinfo=z, fold=1), D(2021, 10, 31, 1, 30, tzinfo=z), D(2021, 10, 31, 1, 30, tzinfo=z, fold=1),
+            D(2021, 10, 31, 1, 45, tzinfo=z), D(2021, 10, 31, 1, 45, 0, 1, tzinfo=z), D(2021, 10, 31, 2, 0, tzinfo=z), D(2021, 6, 1, 12, tzinfo=z)]
+    other = [D(2021, 10, 31, 1, 30, tzinfo=z2, fold=1), D(2021, 10, 31, 0, 0, tzinfo=_dt.timezone.utc), D(2021, 10, 30, 23, 30, tzinfo=_dt.timezone(_dt.timedelta(hours=-1))),
+             D(2021, 10, 31, 1, 30, tzinfo=z2)]
+    naive = [D(2021, 10, 31, 1, 30), D(2021, 10, 31, 1, 30, fold=1), D(2021, 10, 31, 1, 30, 0, 1), D(2020, 2, 29)]
+    dates = [_dt.date(2021, 10, 31), _dt.date(2021, 11, 1), _dt.date(2020, 2, 29)]
+    fn = m.func("_is_after")
+    funcs = {st.name: st for st in m.top() if isinstance(st, ast.FunctionDef)}
+    glob = {"datetime": _dt.datetime, "date": _dt.date, "timedelta": _dt.timedelta, "timezone": _dt.timezone, "UTC": _dt.timezone.utc, "cast": lambda t, v: v,
+            "ValueError": ValueError, "TypeError": TypeError}
+    bad, n = [], 0
+
+    def inst(x):
+        return x.replace(tzinfo=None) - x.utcoffset()
+    try:
+        for group, aware in ((same + other, True), (naive, False), (dates, False)):
+            for a in group:
+                for b in group:
+                    got = minieval.call(fn, [a, b], {}, {**funcs, "$globals": dict(glob)})
+                    want = inst(a) > inst(b) if aware else a > b
+                    n += 1
+                    if got is not want:
+                        how = f" (fold={a.fold} / fold={b.fold}, {'one tzinfo object' if a.tzinfo is b.tzinfo else 'two tzinfo objects'})" if aware else ""
+                        bad.append(f"_is_after({a.isoformat()}, {b.isoformat()}){how} -> {got!r}; the first operand is {'' if want else 'not '}the later point in time")
+    except (core.Unsupported, KeyError, TypeError, AttributeError, ValueError, IndexError, RecursionError, minieval.Raised) as e:
+        ctx.unverified("ORDER.tabulated", "_is_after", f"outside the checker's interpreter: {type(e).__name__}: {str(e)[:160]}", m.loc(fn))
+        return None
+    ctx.ob("ORDER.tabulated", "_is_after", not bad, f"{n} ordered pairs: " + (f"wrong: {bad[:3]}" if bad else "the order of the instants (inside a repeated hour, "
+           "both folds, one and two tzinfo objects), the native order for naive values and dates"), m.loc(fn))
+    if not bad:
+        ctx.established(("ORDER.instant",), "_is_after", "ORDER.tabulated")
+    return not bad
+
+
 def _instant_order(ctx) -> None:
     """Ordering decisions between the two endpoints must not use the bare native comparison: for two aware
     datetimes sharing one tzinfo it compares wall clock fields and ignores fold."""
@@ -127,6 +185,8 @@ def _instant_order(ctx) -> None:
         ctx.ob("ORDER.instant", f"{q}/endpoint-order", not bare,
                f"{[nun(x) for x in bare]}: a native comparison of the endpoints ignores fold when both share one tzinfo, so inside a "
                f"repeated hour the later instant can compare as earlier (negative absolute length, wrong invert flag)", m.loc(bare[0]) if bare else m.loc(fn))
+    if m.has_func("_is_after") and _is_after_tabulate(ctx, m):
+        pass
     if m.has_func("_is_after"):
         # whatever its shape: some leaf of the helper must order aware operands through their UTC offsets (utcoffset() of both,
         # or astimezone() of both), and the bare wall-clock comparison may only remain on leaves that exclude that case
@@ -476,7 +536,10 @@ def _length_tabulate(ctx, exact: bool = False) -> None:
         """a stub standing for the pendulum DateTime / Date with the fields, tzinfo and fold of the native value x"""
         if isinstance(x, _dt.datetime):
             return minieval.Stub(_types=(_dt.datetime,), _pend="DateTime", _native=x, _eqkey=x, year=x.year, month=x.month, day=x.day, hour=x.hour, minute=x.minute,
-                                 second=x.second, microsecond=x.microsecond, tzinfo=x.tzinfo, fold=x.fold, utcoffset=x.utcoffset, astimezone=x.astimezone, tz=x.tzinfo)
+                                 second=x.second, microsecond=x.microsecond, tzinfo=x.tzinfo, fold=x.fold, utcoffset=x.utcoffset, astimezone=x.astimezone, tz=x.tzinfo,
+                                 timezone=x.tzinfo, timezone_name=(x.tzinfo.tzname(None) if x.tzinfo is not None else None), is_local=lambda: False,
+                                 offset=(None if x.utcoffset() is None else int(x.utcoffset().total_seconds())), timestamp=x.timestamp, date=x.date, time=x.time, timetz=x.timetz,
+                                 toordinal=x.toordinal, weekday=x.weekday, isoformat=x.isoformat)
         return minieval.Stub(_types=(_dt.date,), _pend="Date", _native=x, _eqkey=x, year=x.year, month=x.month, day=x.day)
     try:
         funcs = {st.name: st for st in m.top() if isinstance(st, ast.FunctionDef)}
